@@ -12,6 +12,8 @@ Driver commands of area `eval` (C01).
           | cmp ln op node node | idx ln node node | tern ln node node node | par ln node
           | asg ln str node | pasg ln str node | call ln str args | meth ln node str args
           | if ln <n> (node nodes)* <hasElse> nodes | for ln <n> str* node nodes | cont ln | brk ln | unk ln
+`runfs <program>|<dir>|<program>|…`: the same with the other `meson.build` files of the source tree
+(directory relative to the source root as a code-point string, block without the `project()` line).
 Answer: `OK|name=value;…|messages|tags` or `ERR:<class>:<line>|messages|tags` (values in the canonical
 syntax of `harness/c01_impl.py: canon`).
 -/
@@ -116,14 +118,17 @@ partial def showVal : Val → String
   | .arr l => "[" ++ ",".intercalate (l.map showVal) ++ "]"
   | .dict d => "{" ++ ",".intercalate (d.map (fun e => showStr e.1 ++ ":" ++ showVal e.2)) ++ "}"
   | .range a b c => s!"r{a}.{b}.{c}"
+  | .subproj n _ => "p" ++ showStr n
 
 def tyName : Ty → String
   | .int => "int" | .bool => "bool" | .str => "str" | .arr => "array" | .dict => "dict" | .range => "range"
+  | .subproj => "subproject"
 
 def errName : ErrK → String
   | .invalidArguments => "InvalidArguments" | .invalidCode => "InvalidCode"
   | .interpreterException => "InterpreterException" | .mesonException => "MesonException"
   | .pyTypeError => "TypeError" | .breakRequest => "BreakRequest" | .continueRequest => "ContinueRequest"
+  | .subdirDoneRequest => "SubdirDoneRequest"
   | .unsupported => "UNSUPPORTED"
 
 def opName : Op → String
@@ -168,6 +173,16 @@ def showRes (r : Res Unit) : String :=
   | .ok _ s => s!"OK|{showVars s.vars}|{showMsgs s.out}|{showTags s.cov}"
   | .err e s => s!"ERR:{errName e}:{s.line}|{showMsgs s.out}|{showTags s.cov}"
   | .sig b s => s!"ERR:{if b then "BreakRequest" else "ContinueRequest"}:0|{showMsgs s.out}|{showTags s.cov}"
+  | .done s => s!"ERR:SubdirDoneRequest:0|{showMsgs s.out}|{showTags s.cov}"
+
+/-- `path|block|path|block|…` : the other build files of the source tree -/
+def parseFiles : List String → Option Files
+  | [] => some []
+  | p :: b :: r =>
+    match parseProgram b, parseFiles r with
+    | some blk, some rest => some ((decodeStr p, blk) :: rest)
+    | _, _ => none
+  | _ => none
 
 def handle (cmd : String) (fs : List String) : String :=
   match cmd, fs with
@@ -175,6 +190,10 @@ def handle (cmd : String) (fs : List String) : String :=
     match parseProgram p with
     | some prog => showRes (runProgram prog)
     | none => "bad-program"
+  | "runfs", p :: rest =>
+    match parseProgram p, parseFiles rest with
+    | some prog, some files => showRes (runProgramIn files prog)
+    | _, _ => "bad-program"
   | _, _ => "bad-op"
 
 end Driver.Eval
